@@ -337,12 +337,20 @@ Crash ==
   /\ Record({"C01_NoFailure"}, {})
   /\ UNCHANGED <<ln0, bid, E, XD, U, SEEN, S, cfg, cnt>>
 
+(* a rich-text schedule generated from the abstract lists (which hold no marks) that the real document cannot execute: *)
+(* marks take part in the placement of concurrent insertions, so an index of the model may not exist (see yata.rs).      *)
+(* Nothing is judged; the behaviour is counted as drift.                                                                *)
+Inexec ==
+  /\ Ev.k = "inexec" /\ ~failed
+  /\ Record({}, {"inexecutable-schedule"})
+  /\ UNCHANGED <<ln0, bid, E, XD, U, SEEN, S, cfg, cnt>>
+
 TInit == /\ l = 1 /\ ln0 = 0 /\ bid = "" /\ E = EmptyFn /\ XD = {} /\ U = <<>> /\ SEEN = EmptyFn /\ S = EmptyFn /\ cfg = EmptyFn /\ failed = FALSE
          /\ viol = {} /\ drift = {} /\ cnt = [beh |-> 0, ev |-> 0, checks |-> 0]
 
 TNext == /\ l <= Len(Rec)
          /\ l' = l + 1
-         /\ (Reset \/ Skip \/ Local \/ Deliver \/ SvOfUpdate \/ Sync \/ Txn \/ Nondet \/ Crash)
+         /\ (Reset \/ Skip \/ Local \/ Deliver \/ SvOfUpdate \/ Sync \/ Txn \/ Nondet \/ Crash \/ Inexec)
 
 TSpec == TInit /\ [][TNext]_vars
 
